@@ -14,16 +14,16 @@ import (
 
 var errScriptedReader = errors.New("scripted reader failure")
 
-// scriptReader delivers data in fragments of at most frag bytes, then ends with io.EOF
+// patScriptReader delivers data in fragments of at most frag bytes, then ends with io.EOF
 // (tail 0 and 1; for tail 1 the data ends inside a packet) or with a reader error (tail 2).
-type scriptReader struct {
+type patScriptReader struct {
 	data []byte
 	pos  int
 	frag int
 	tail int
 }
 
-func (r *scriptReader) Read(p []byte) (int, error) {
+func (r *patScriptReader) Read(p []byte) (int, error) {
 	if r.pos >= len(r.data) {
 		if r.tail == 2 {
 			return 0, errScriptedReader
@@ -103,7 +103,7 @@ func init() {
 			data = append(data, part...)
 		}
 		before := exact(data)
-		r := &scriptReader{data: data, frag: a[2].Int(), tail: tail}
+		r := &patScriptReader{data: data, frag: a[2].Int(), tail: tail}
 		p, err := psi.ReadPAT(r)
 		if err != nil {
 			return VErr(errCode(err))
